@@ -148,6 +148,9 @@ def _fg_completion(F, seed):
     # This is to reduce the range of the coefficients appearing in the final
     #   product.
     degree = len(real_roots) + 2 * len(imag_roots)
+    if degree == 0:
+        raise CompletionError(
+            "Completion Failed. No root of 1 - F * ~F lies inside the unit circle")
     lst = []
     if seed is None:
         seed = np.random.randint(2, size=len(imag_roots) + len(real_roots))
